@@ -1,5 +1,12 @@
 package values
 
+import "math"
+
+// MaxRangeArrayLen is the length of the longest range that is converted into
+// an array, which happens when a range is passed to a filter that takes an
+// array. Loops iterate over a range without building the array.
+const MaxRangeArrayLen = 1 << 24
+
 // A Range is the range of integers from b to e inclusive.
 type Range struct {
 	b, e int
@@ -15,7 +22,11 @@ func (r Range) Len() int {
 	if r.e < r.b {
 		return 0
 	}
-	return r.e + 1 - r.b
+	if n := r.e - r.b + 1; n > 0 {
+		return n
+	}
+	// the count does not fit an int
+	return math.MaxInt
 }
 
 // Index is in the iteration interface
@@ -23,9 +34,9 @@ func (r Range) Index(i int) any { return r.b + i }
 
 // AsArray converts the range into an array.
 func (r Range) AsArray() []any {
-	a := make([]any, 0, r.Len())
-	for i := r.b; i <= r.e; i++ {
-		a = append(a, i)
+	a := make([]any, r.Len())
+	for i := range a {
+		a[i] = r.b + i
 	}
 	return a
 }
